@@ -10,6 +10,8 @@ import Driver.Bucket
     archw <tar|zip> <bodyFails> <closeFails>       Tar/Zip into a failing io.Writer
     atomic <old> <chunks> <failAt>                 old/failAt: "-" for none
     aprefix <old> <chunks> <j>
+    aproducer <old> <chunks> <k>                   the producer fails after k chunks (no write fails)
+    conc <old> <chunksA> <chunksB> <schedule bits|->  -> what is at the final path after 0,1,…,all steps
     flush <fails bits|->                           -> err|ok + number of outputs flushed
   chunks: c1+c2+... or "-" (no chunk); faults: hexpath:<p|w|c>:<idx>,... or "-".
   The helpers' error plumbing is instantiated with the REGENERATED BufGen.AstFacts.facts.
@@ -90,6 +92,20 @@ def handle : List String → String
     let f := if fa = "-" then none else fa.toNat?
     let r := atomicRun o (parseChunks cs) f
     res r.1 ++ "|final" ++ optS r.2.final ++ "|temp" ++ optS r.2.temp
+  | ["aproducer", old, cs, k] =>
+    match k.toNat? with
+    | some n =>
+      let o := if old = "-" then none else some old
+      let r := atomicProducerFail o (parseChunks cs) n
+      res r.1 ++ "|final" ++ optS r.2.final ++ "|temp" ++ optS r.2.temp
+    | none => "bad-op"
+  | ["conc", old, ca, cb, bits] =>
+    let o := if old = "-" then none else some old
+    let a := parseChunks ca
+    let b := parseChunks cb
+    let sched := if bits = "-" then [] else bits.toList.map (· == '1')
+    let n := a.length + b.length + 6
+    ",".intercalate ((List.range (n + 1)).map fun j => optS (concurrentPrefix false o a b sched j).final)
   | ["aprefix", old, cs, j] =>
     match j.toNat? with
     | some n =>
